@@ -70,7 +70,7 @@ func hasEnum(e *R) bool {
 	if e.K == KProj && e.PK == PValues {
 		return true
 	}
-	if e.K == KCall && (e.Name == "keys" || e.Name == "values" || e.Name == "items" || e.Name == "to_string") {
+	if e.K == KCall && (e.Name == "keys" || e.Name == "values" || e.Name == "items") {
 		return true
 	}
 	if hasEnum(e.L) || hasEnum(e.Rt) || hasEnum(e.Cond) {
